@@ -54,7 +54,8 @@ vars == <<layer, doc, style, mut, raw>>
 NestLimit == 256      \* "Level of nesting is limited" - deepest accepted block depth
 ExpLimit  == 255      \* import expansion depth limit
 LadderMax == 16       \* ladders up to this height must expand (2^16 nodes); higher: any
-EnvTable  == [VERIF_SET |-> "ENVVAL"]      \* VERIF_UNSET is not set
+\* VERIF_UNSET is not set; VERIF_BSNL holds a backslash directly followed by a newline
+EnvTable  == [VERIF_SET |-> "ENVVAL", VERIF_BSNL |-> "x\\\ny"]
 (* the shipped files and the environment their documentation asks for (docs/docker.md) *)
 ShippedFiles ==
   { [path |-> "maddy.conf", env |-> EnvTable],
@@ -117,6 +118,18 @@ FixedPool ==
     D_backslash |-> <<D("a", <<Q("p\\q", "p\\q"), P("x\\y"), P("k")>>)>>,
     D_bslash4   |-> <<D("a", <<Q("p\\\\\\\\q", "p\\\\\\\\q"), Q("\\\\", "\\\\")>>)>>,
     D_multiline |-> <<D("a", <<Q("p\nq", "p\nq"), P("z")>>)>>,
+    \* a quoted token with a backslash directly followed by LF (CR LF): the lexer's line
+    \* counter and the Dispenser's count of line breaks inside the token must agree,
+    \* whether the token ends its line, is followed by arguments, or by "{"
+    D_bsnl_last |-> <<D("a", <<Q("x\\\ny", "x\\\ny")>>), D("c", <<P("d")>>)>>,
+    D_bsnl_args |-> <<D("a", <<Q("x\\\ny", "x\\\ny"), P("b")>>), D("c", <<P("d")>>)>>,
+    D_bsnl_blk  |-> <<B("a", <<Q("x\\\ny", "x\\\ny")>>, <<D("b", <<P("y")>>)>>), D("c", <<P("d")>>)>>,
+    D_bsnl_crlf |-> <<B("a", <<Q("x\\\r\ny", "x\\\r\ny"), Q("p\\\n\\\nq", "p\\\n\\\nq")>>, <<D("b", <<Q("y\\\r\n", "y\\\r\n"), P("k")>>)>>),
+                      D("c", <<P("d")>>)>>,
+    \* the same token arriving through the environment: the tree has it in the middle of
+    \* an argument list / before a block although no source line was written that way
+    E_bsnl_args |-> <<D("a", <<EnvA("", "VERIF_BSNL", ""), P("b")>>), D("c", <<P("d")>>)>>,
+    E_bsnl_blk  |-> <<B("a", <<EnvA("", "VERIF_BSNL", "")>>, <<D("b", <<EnvA("", "VERIF_BSNL", "")>>)>>), D("c", <<P("d")>>)>>,
     D_hashquote |-> <<D("a", <<Q("x#y {", "x#y {"), P("z")>>)>>,
     D_emptyarg  |-> <<D("a", <<Q("", ""), P("x")>>)>>,
     D_names     |-> <<D("a.b-c_d", <<>>), D("_a1", <<P("1")>>)>>,
